@@ -4,6 +4,7 @@ the public configuration getters, in both positions of every option toggle -> Le
 import enum, os, sys
 sys.path.insert(0, os.path.dirname(os.path.dirname(os.path.abspath(__file__))))
 from harness.core import write_if_changed, LEAN
+from harness.canon import fct_call_names
 
 ADDR_FMT = {
     "P2PKHAddrEncoder": "p2pkh", "P2SHAddrEncoder": "p2sh", "P2WPKHAddrEncoder": "p2wpkh", "P2TRAddrEncoder": "p2tr",
@@ -23,7 +24,7 @@ BIP32 = {"Bip32Slip10Secp256k1": "secp256k1", "Bip32Slip10Nist256p1": "nist256p1
 def field(v):
     from bip_utils.bip.conf.common import BipCoinFctCallsConf
     if isinstance(v, BipCoinFctCallsConf):
-        return "@" + ".".join(v.m_fct_names)
+        return "@" + ".".join(fct_call_names(v))
     if isinstance(v, bytes):
         return v.hex() if v else "-"
     if isinstance(v, str):
